@@ -32,6 +32,74 @@ def events_of(crate, body, fn, declared=False):
         for e in body.events:
             if e.bb in body.live and e.callee != POLL and (e.resolved == fn or (e.resolved is None and e.callee == fn)):
                 out.append(e)
+    if not out:
+        out = _events_through_helpers(crate, body, fn)
+    return out
+
+
+def _local_callees(crate, body):
+    """Names of crate-local bodies this body calls / awaits / creates (closures)."""
+    out = set()
+    for e in body.events:
+        if e.bb not in body.live:
+            continue
+        n = e.resolved or e.callee or ""
+        if n in crate.bodies:
+            out.add(n)
+            if n + "::{closure#0}" in crate.bodies:
+                out.add(n + "::{closure#0}")
+    for bb, j, s in body.all_assigns():
+        rv = s["rv"]
+        if rv["rk"] == "agg" and rv.get("ak") == "closure" and rv["closure"] in crate.bodies:
+            out.add(rv["closure"])
+    return out
+
+
+def _reaches_in_file(crate, start, fn, file, depth=4):
+    """Does body `start` reach an occurrence of `fn` through bodies of the same source file?"""
+    want = {fn, fn + "::{closure#0}"}
+    seen = set()
+    frontier = {start}
+    for _ in range(depth):
+        nxt = set()
+        for n in frontier:
+            if n in seen:
+                continue
+            seen.add(n)
+            b = crate.bodies.get(n)
+            if b is None or b.file != file:
+                continue
+            callees = _local_callees(crate, b)
+            if callees & want:
+                return True
+            nxt |= callees
+        frontier = nxt - seen
+    return False
+
+
+def _events_through_helpers(crate, body, fn):
+    """Fallback used only when `fn` does not occur directly in `body`: calls to a helper in the
+    same source file that (within a few same-file hops) performs `fn`. Keeps rules stable when a
+    step is extracted into a private helper."""
+    out = []
+    for e in body.events:
+        if e.bb not in body.live:
+            continue
+        if e.callee == POLL:
+            tgt = e.resolved or ""
+            if not tgt.endswith("::{closure#0}"):
+                continue
+        else:
+            tgt = e.resolved or e.callee or ""
+            if is_async_fn(crate, tgt):
+                continue          # its effects happen at the poll
+        if tgt in (fn, fn + "::{closure#0}"):
+            continue
+        tb = crate.bodies.get(tgt)
+        if tb is None or tb.file != body.file or tgt == body.name:
+            continue
+        if _reaches_in_file(crate, tgt, fn, body.file):
+            out.append(e)
     return out
 
 
